@@ -22,6 +22,7 @@ def run(res):
     run_contracts(res, cs.CONTRACTS, cs.CONTRACTS + cr.CONTRACTS)
     frames.undefined_names(res, wrapper_files(), "sample-wrappers")
     frames.no_inplace_on_dataset_values(res, wrapper_files())
+    frames.seed_presence_by_identity(res, wrapper_files())
     r, n = rp.search(1000, 5 + res.seed, workers=True)
     add_direct(res, "bounded:seeded-wrappers", "bounded", r is None, backend="bounded", model=r,
                note="repeated / permuted requests, perturbed global RNG, second instance, in-memory tensors unchanged, DataLoader workers 0 vs 2")
